@@ -30,6 +30,15 @@ FEATURE_NAMES = ["lnrSp", "deltLCn", "deltCn", "Xcorr", "Sp", "IonFrac", "Mass",
                  "enzN", "enzC", "enzInt", "lnNumSP", "dM", "absdM", "lnExpMass", "labels", "scan", "Peptides",
                  "RefactoredXCorr", "NegLog10PValue", "file_name", "rettime", "specIdx"]
 
+ASSUMPTIONS = [
+    "one protein per row (no tab-separated protein lists), no DefaultDirection line",
+    "a lone 'charge' column is left out of the feature comparison (read_percolator looks for the optional charge "
+    "column under the name 'charge_column', so dataset.charge_column stays None; the statement is silent on it)",
+    "feature order = file order is required as a separate case id ('feature-order'); spectrum-key order is free",
+    "read_percolator_missing_cells: a missing value is an empty cell or the text NaN in tab-delimited input, a null / "
+    "NaN in Parquet; a feature column is numeric (whole numbers, 0/1 flags, reals or a mixture), never text",
+]
+
 
 def _casing(rnd, canon):
     style = rnd.choice(["pin", "lower", "upper", "mixed"])
@@ -117,6 +126,8 @@ def build_table(spec):
             v = [rnd.randint(2, 4) for _ in range(n)]
         elif role in ("modifiedpeptide", "precursor", "peptidegroup"):
             v = ["%s_%d" % (role[:3], rnd.randint(0, 6)) for _ in range(n)]
+        elif col in spec.get("plan", {}):
+            v = _planned_column(spec, col, n)
         elif col in spec["int_feats"]:
             v = [rnd.randint(0, 9) for _ in range(n)]
         else:
@@ -134,7 +145,7 @@ def write_table(spec, df, d):
     if spec["fmt"] == "parquet":
         df.to_parquet(path, index=False, row_group_size=spec.get("row_group", None))
     else:
-        df.to_csv(path, sep="\t", index=False)
+        df.to_csv(path, sep="\t", index=False, na_rep=spec.get("na_rep", ""))
     return path
 
 
@@ -217,7 +228,25 @@ def run_case(spec, d):
     amb = _col(spec, "charge")
     want = [c for c in spec["cols"] if spec["roles"][c] == "feature" and c not in spec["nan_cols"]]
     got = [c for c in ds.feature_columns if c != amb]
-    if sorted(got) != sorted(want):
+    if sorted(got) != sorted(want) and "plan" in spec:
+        # planned tables: one violation per class (value kind, zone of the missing cell) of misjudged column
+        plan = spec["plan"]
+        seen = set()
+        for c in spec["cols"]:
+            if c in plan and (c in got) != (c in want):
+                kind, pos = plan[c][0], plan[c][1]
+                case = ("missing-cell-column-kept:%s:%s" % (kind, pos)) if c in got else \
+                    ("complete-column-dropped:%s" % kind)
+                if case not in seen:
+                    seen.add(case)
+                    bad.append((case, "column %r (%s%s) %s [%s, row chunk %d, %d rows]" % (
+                        c, kind, "" if pos == "none" else ", missing cell in " + pos,
+                        "is a feature although it has a missing cell" if c in got else "is not among the features",
+                        ctx, spec["chunk_rows"], spec["rows"])))
+        other = [c for c in got if c not in plan]
+        if other:
+            bad.append(("reserved-column-as-feature", "feature_columns: unexpected %r [%s]" % (other, ctx)))
+    elif sorted(got) != sorted(want):
         extra = [c for c in got if c not in want]
         lost = [c for c in want if c not in got]
         if any(c in spec["nan_cols"] for c in extra):
@@ -256,7 +285,7 @@ def cases(tier, seed):
 def _payload(spec):
     p = {"spec": spec}
     if len(json.dumps(p)) > 1900:
-        slim = {k: v for k, v in spec.items() if k not in ("roles", "cols")}
+        slim = {k: v for k, v in spec.items() if k not in ("roles", "cols", "plan", "nan_cols")}
         slim["n_feat"] = sum(1 for c in spec["cols"] if spec["roles"][c] == "feature")
         slim["n_spec_opt"] = sum(1 for r in SPECTRUM_OPTIONAL if _col(spec, r))
         p = {"regen": slim}
@@ -299,15 +328,169 @@ def _job(job):
     return spec, run_case(spec, Path(d))
 
 
-def _map(fn, jobs, procs=8):
-    """ordered map over worker processes (results do not depend on the scheduling); HARNESS_PROCS=1 runs inline"""
+_POOL = []
+
+
+def _map(fn, jobs, procs=8, chunksize=8):
+    """ordered map over worker processes (results do not depend on the scheduling); HARNESS_PROCS=1 runs inline.
+    The worker pool is started once and shared by the checks of this module."""
     import multiprocessing as mp
     import os
     procs = int(os.environ.get("HARNESS_PROCS", procs))
     if procs <= 1:
         return [fn(j) for j in jobs]
-    with mp.get_context("spawn").Pool(procs) as pool:
-        return pool.map(fn, jobs, chunksize=8)
+    if not _POOL:
+        import atexit
+        _POOL.append(mp.get_context("spawn").Pool(procs))
+        atexit.register(_POOL[0].terminate)
+    return _POOL[0].map(fn, jobs, chunksize=chunksize)
+
+
+# ------------------------------------------------------------------------- missing cell x value kind families
+# A "plan" gives every feature column a value kind and the zone of its missing cell(s); both vary independently.
+KINDS = ["whole", "flag", "real", "whole-then-real", "real-then-whole"]
+#   whole            whole numbers 0..30 in every row                       (text: "17";  Parquet: int64 / Int64)
+#   flag             0/1 indicator                                           (text: "0"/"1"; Parquet: int64 / Int64)
+#   real             numbers with a fractional part in every row             (Parquet: float64)
+#   whole-then-real  whole numbers in the first two rows, fractional values among the later rows
+#   real-then-whole  fractional values in the first two rows, whole numbers among the later rows
+POSITIONS = ["first-rows", "later-row", "last-row", "next-row-chunk"]
+#   first-rows       missing cell(s) in row 0 and/or 1
+#   later-row        1-2 missing cells after the first two rows and before the last row (inside the first row chunk
+#                    whenever the row chunk is larger than 2)
+#   last-row         only the last row
+#   next-row-chunk   1-2 missing cells in rows of a LATER row chunk than the first (row index >= row chunk size)
+SMALL_ROW_CHUNKS = [2, 3, 7]
+
+
+def _missing_rows(rnd, pos, n, r):
+    if pos == "none":
+        return []
+    if pos == "first-rows":
+        return sorted(rnd.sample([0, 1], rnd.choice([1, 1, 2])))
+    if pos == "last-row":
+        return [n - 1]
+    if pos == "later-row":
+        zone = list(range(2, min(r, n - 1))) if r > 2 else list(range(2, n - 1))
+    elif pos == "next-row-chunk":
+        zone = list(range(max(r, 2), n - 1))
+    else:
+        raise ValueError(pos)
+    return sorted(rnd.sample(zone, min(len(zone), rnd.choice([1, 1, 2]))))
+
+
+def _planned_column(spec, col, n):
+    """cells of one planned feature column (pure function of the spec): a pandas Series"""
+    import pandas as pd
+    kind, pos, phys = spec["plan"][col]
+    rnd = random.Random("c10m-col-%d-%d-%s" % (spec["seed"], spec["i"], col))
+
+    def whole():
+        return rnd.randint(0, 1) if kind == "flag" else rnd.randint(0, 30)
+
+    def real():
+        x = round(rnd.gauss(0, 3), 5)
+        return x if x != int(x) else x + 0.5
+
+    if kind in ("whole", "flag"):
+        v = [whole() for _ in range(n)]
+    elif kind == "real":
+        v = [real() for _ in range(n)]
+    else:
+        head, tail = (whole, real) if kind == "whole-then-real" else (real, whole)
+        v = [head(), head()] + [tail() if rnd.random() < 0.5 else head() for _ in range(n - 2)]
+        v[rnd.randrange(2, n)] = tail()
+    gone = _missing_rows(rnd, pos, n, spec["chunk_rows"])
+    if pos != "none" and not gone:
+        raise AssertionError("no room for a %s missing cell in %d rows, row chunk %d" % (pos, n, spec["chunk_rows"]))
+    for r in gone:
+        v[r] = None
+    if spec["fmt"] != "parquet":
+        return pd.Series(v, dtype=object)          # cells are written as they are: 17 -> "17", 2.5 -> "2.5", None -> ""
+    if phys == "int64":
+        return pd.Series(v, dtype="int64")
+    if phys == "Int64":
+        return pd.Series(v, dtype="Int64")         # nullable integers: Parquet int64 with nulls
+    return pd.Series([float("nan") if x is None else float(x) for x in v], dtype="float64")
+
+
+def make_missing_spec(seed, i, family, fmt, chunk_cols, kind=None, pos=None):
+    """family "single": one column (kind, pos) with missing cells among 2..6 complete columns of random kinds;
+    family "cross": one column for every (kind, zone) pair, zone in POSITIONS + none (25 feature columns)."""
+    rnd = random.Random("c10m-%d-%d" % (seed, i))
+    if family == "single":
+        others = [(rnd.choice(KINDS), "none") for _ in range(rnd.randint(2, 6))]
+        plan = others + [(kind, pos)]
+    else:
+        plan = [(k, p) for k in KINDS for p in POSITIONS + ["none"]]
+    rnd.shuffle(plan)
+    # the parity of spec["i"] selects read_pin / read_percolator (see parse): drawn at random, not tied to the enumeration
+    spec = make_spec(seed, 200000 + 2 * i + rnd.randint(0, 1), len(plan), rnd.randint(0, 3), chunk_cols, fmt)
+    feats = [c for c in spec["cols"] if spec["roles"][c] == "feature"]
+    spec["plan"] = {}
+    for c, (k, p) in zip(feats, plan):
+        if k in ("whole", "flag"):
+            phys = "int64" if p == "none" else rnd.choice(["Int64", "float64"])
+        else:
+            phys = "float64"
+        spec["plan"][c] = [k, p, phys]
+    spec["nan_cols"] = [c for c in feats if spec["plan"][c][1] != "none"]
+    spec["int_feats"] = []
+    spec["rows"] = rnd.randint(9, 30)
+    need_small = any(p == "next-row-chunk" for _, p in plan)
+    spec["chunk_rows"] = rnd.choice(SMALL_ROW_CHUNKS if need_small else SMALL_ROW_CHUNKS + [2000000])
+    spec["na_rep"] = rnd.choice(["", "", "NaN"])
+    if fmt == "parquet":
+        spec["row_group"] = rnd.choice([None, 4, 5])
+    spec["mc"] = [i, family, kind, pos]
+    return spec
+
+
+def missing_cases(tier, seed):
+    """(family, fmt, chunk_cols, kind, pos) of every case of the tier"""
+    reps = 1 if tier == "quick" else 8
+    out = []
+    for _ in range(reps):
+        for fmt in ("text", "parquet"):
+            for kind in KINDS:
+                for pos in POSITIONS:
+                    for c in (3, 19):
+                        out.append(("single", fmt, c, kind, pos))
+            for c in (3, 4, 5, 19):
+                for _ in range(2):
+                    out.append(("cross", fmt, c, None, None))
+    return out
+
+
+def check_missing_cells(tier, seed):
+    todo = missing_cases(tier, seed)
+    ck = Check("read_percolator_missing_cells", "mokapot.parsers.pin.read_pin / read_percolator",
+               ("exhaustive over value kind of the column %s x zone of its missing cell(s) %s x format {tab-delimited text, "
+                "Parquet} x column chunk {3,19}: one such column among 2..6 complete columns of random kinds; plus tables "
+                "with one feature column for every (kind, zone or no missing cell) pair (25 feature columns, column chunk "
+                "3|4|5|19, text and Parquet); %d repetition(s); per case random (seed %d): 9..30 rows, row chunk 2|3|7 "
+                "(or 2e6 when no next-row-chunk zone is planned), max_workers 1|2, column order/casing/optional columns "
+                "as in read_percolator_tables, text: missing cell written as empty or NaN, numbers written as they are "
+                "(17 / 2.5); Parquet: whole/flag = int64, with missing cell nullable Int64 or float64, other kinds "
+                "float64, row groups whole file|4|5; %d cases")
+               % (KINDS, POSITIONS, 1 if tier == "quick" else 8, seed, len(todo)),
+               "oracle from the case spec: same comparison as read_percolator_tables (rows, order, targets, spectrum key), "
+               "features = the planned columns without a missing cell, in file order; every case is non-trivial (at "
+               "least one column with a missing cell)")
+    with scratch("c10m_") as d:
+        jobs = [(seed, i, fam, fmt, c, kind, pos, str(d)) for i, (fam, fmt, c, kind, pos) in enumerate(todo)]
+        for job, (spec, bad) in zip(jobs, _map(_missing_job, jobs, chunksize=4)):
+            ck.case(job[:7], nontrivial=bool(spec["nan_cols"]))
+            for case, what in bad:
+                ck.violation(case, what, _payload(spec))
+    return ck
+
+
+def _missing_job(job):
+    from pathlib import Path
+    seed, i, fam, fmt, c, kind, pos, d = job
+    spec = make_missing_spec(seed, i, fam, fmt, c, kind, pos)
+    return spec, run_case(spec, Path(d))
 
 
 def _reject_specs(tier, seed):
@@ -369,7 +552,10 @@ def replay(violation):
         spec = inp["spec"]
     else:
         r = inp["regen"]
-        spec = make_spec(r["seed"], r["i"], r["n_feat"], r["n_spec_opt"], r["chunk_cols"], r["fmt"])
+        if "mc" in r:
+            spec = make_missing_spec(r["seed"], r["mc"][0], r["mc"][1], r["fmt"], r["chunk_cols"], r["mc"][2], r["mc"][3])
+        else:
+            spec = make_spec(r["seed"], r["i"], r["n_feat"], r["n_spec_opt"], r["chunk_cols"], r["fmt"])
         if r.get("why", "").startswith("missing-"):
             col = _col(spec, r["why"][len("missing-"):])
             spec["cols"] = [c for c in spec["cols"] if c != col]
@@ -388,8 +574,5 @@ def REPLAY(check_name, violation):
 
 if __name__ == "__main__":
     a = args()
-    emit([check_read_percolator(a.tier, a.seed), check_rejects(a.tier, a.seed)],
-         ["one protein per row (no tab-separated protein lists), no DefaultDirection line",
-          "a lone 'charge' column is left out of the feature comparison (read_percolator looks for the optional charge "
-          "column under the name 'charge_column', so dataset.charge_column stays None; the statement is silent on it)",
-          "feature order = file order is required as a separate case id ('feature-order'); spectrum-key order is free"])
+    emit([check_read_percolator(a.tier, a.seed), check_missing_cells(a.tier, a.seed), check_rejects(a.tier, a.seed)],
+         ASSUMPTIONS)
